@@ -1,4 +1,5 @@
 """C07 -- safe API results stay in the order-r subgroup; the membership test is exact."""
+import roles
 import construles as C
 import exp
 import mathlib as M
@@ -26,9 +27,10 @@ def constructor_class(fx, path):
         return 'identity-constant'
     if tr == 'std::convert::From' and nm == 'from':
         return 'conversion'
-    if nm == 'get_generator' and not tr:
+    R = roles.roles(fx)
+    if path in (R['G1'].get('get_generator'), R['G2'].get('get_generator')):
         return 'generator-constant'
-    if '::get_point_from_x::{closure' in path:
+    if any(R[g].get('get_point_from_x') and path.startswith(R[g]['get_point_from_x'] + '::{closure') for g in ('G1', 'G2')):
         return 'on-curve-candidate'
     if tr == 'EncodedPoint' and nm == 'into_affine_unchecked':
         return 'unchecked-decoder'
@@ -110,12 +112,12 @@ def rule_who_calls(fx, rep):
             own = fx.impl_method(enc, 'bls12_381::ec::%s::%s%s' % (m, G, k), 'into_affine')
             rep.check(callers <= {own}, 'WIRE', 'callers:%s%s::into_affine_unchecked' % (G, k), 'called only by the matching checked decoder',
                       'the unchecked decoder is called from %s' % sorted(callers - {own}), construct=unchecked)
-        gpx = aff + '::get_point_from_x'
+        gpx = roles.roles(fx)[G].get('get_point_from_x')
         rnd = fx.impl_method('CurveProjective', proj, 'random')
         cu = fx.impl_method(enc, 'bls12_381::ec::%s::%sCompressed' % (m, G), 'into_affine_unchecked')
         callers = set(cg.callers(gpx))
         rep.check(callers <= {rnd, cu} and callers, 'WIRE', 'callers:%s::get_point_from_x' % G, 'only random() and the compressed unchecked decoder', 'get_point_from_x is called from %s' % sorted(callers - {rnd, cu}))
-        sbc = aff + '::scale_by_cofactor'
+        sbc = roles.roles(fx)[G].get('scale_by_cofactor')
         callers = set(cg.callers(sbc))
         rep.check(callers <= {rnd}, 'WIRE', 'callers:%s::scale_by_cofactor' % G, 'only random()', 'called from %s' % sorted(callers))
         for tm in ('transmute_affine', 'transmute_projective'):
@@ -126,11 +128,11 @@ def rule_who_calls(fx, rep):
             tr = 'CurveAffine' if ty == aff else 'CurveProjective'
             atm = fx.impl_method(tr, ty, 'as_tuple_mut')
             callers = set(cg.callers(atm))
-            rep.check(callers <= {'bls12_381::isogeny::eval_iso'} and (fx.fn(atm) or {}).get('unsafe'), 'WIRE', 'callers:%s::as_tuple_mut' % POINT_TYPES[ty], 'unsafe; used only by the isogeny evaluator',
+            rep.check(callers <= {roles.roles(fx).get('iso_evaluator')} and (fx.fn(atm) or {}).get('unsafe'), 'WIRE', 'callers:%s::as_tuple_mut' % POINT_TYPES[ty], 'unsafe; used only by the isogeny evaluator',
                       'as_tuple_mut called from %s' % sorted(callers))
     # generic calls through the trait (as_tuple_mut on PtT)
     tm = [c for c in cg.callers('CurveProjective::as_tuple_mut')]
-    rep.check(set(tm) <= {'bls12_381::isogeny::eval_iso'}, 'WIRE', 'callers:CurveProjective::as_tuple_mut(generic)', 'only the isogeny evaluator', 'generic callers: %s' % tm)
+    rep.check(set(tm) <= {roles.roles(fx).get('iso_evaluator')}, 'WIRE', 'callers:CurveProjective::as_tuple_mut(generic)', 'only the isogeny evaluator', 'generic callers: %s' % tm)
 
 
 def rule_random(fx, rep):
@@ -138,11 +140,15 @@ def rule_random(fx, rep):
         aff = 'bls12_381::ec::%s::%sAffine' % (m, G)
         proj = 'bls12_381::ec::%s::%s' % (m, G)
         # scale_by_cofactor multiplies by exactly the cofactor
-        sbc = aff + '::scale_by_cofactor'
+        RG = roles.roles(fx)[G]
+        sbc = RG.get('scale_by_cofactor')
+        if sbc is None or fx.body(sbc) is None:
+            rep.fail('EXP', '%s:scale_by_cofactor' % G, 'random() applies no cofactor-scaling helper to its candidate')
+            continue
         rep.fn(sbc)
 
         def tr(I, fr, t, c, pth):
-            if c.get('name') == 'mul_bits' and (c.get('res') or '').startswith(aff):
+            if RG.get('mul_bits') and c.get('res') == RG['mul_bits']:
                 v = fr.deref_operand(t['args'][0])
                 bits = fr.operand(t['args'][1])
                 if isinstance(v, Lin) and isinstance(bits, exp.Bits) and bits.v is not None:
@@ -180,7 +186,7 @@ def rule_random(fx, rep):
                 src = strip(t[2][0])
                 while src[0] == 'proj':
                     src = strip(src[1])
-                ok = src[0] == 'call' and (src[1].get('res') or '') == aff + '::get_point_from_x'
+                ok = src[0] == 'call' and (src[1].get('res') or '') == RG.get('get_point_from_x')
                 why = 'the scaled point is %s, not a get_point_from_x result' % term_str(src)
             if ok:
                 # guarded by !is_zero(result): find the switch on is_zero of that value dominating the return block
